@@ -186,7 +186,9 @@ def check_struct(ctx, case):
 
 # -------------------------------------------------------------------------------------------- (B)
 
-PREFIX = {'u': 1e-6, 'm': 1e-3, '': 1.0, 'k': 1e3}
+# SI prefixes -> decimal exponent (the table of the SI brochure, written independently of frappy's)
+SI_EXP = {'q': -30, 'r': -27, 'y': -24, 'z': -21, 'a': -18, 'f': -15, 'p': -12, 'n': -9, 'u': -6, 'µ': -6, 'm': -3, '': 0,
+          'k': 3, 'M': 6, 'G': 9, 'T': 12, 'P': 15, 'E': 18, 'Z': 21, 'Y': 24, 'R': 27, 'Q': 30}
 
 
 @st.composite
@@ -197,7 +199,7 @@ def floatenum_case(draw):
     used_idx, used_labels = set(), set()
     for _ in range(n):
         num = draw(st.sampled_from(['1', '2', '5', '20', '500', '0.5', '3.3']))
-        pre = draw(st.sampled_from(['u', 'm', '', 'k']))
+        pre = draw(st.sampled_from(['u', 'm', '', 'k'] * 3 + sorted(SI_EXP)))
         label = f'{num}{pre}{unit}'
         if label in used_labels:
             continue
@@ -206,7 +208,7 @@ def floatenum_case(draw):
         idx += gap
         if idx in used_idx:
             idx = max(used_idx) + 1
-        value = float(num) * PREFIX[pre]
+        value = float(f'{num}e{SI_EXP[pre]}')
         if 'value' in form:
             value = draw(st.sampled_from([value, value * 1.2, 0.006, -1.0]))
         if form == 'label':
@@ -265,10 +267,26 @@ def check_floatenum(ctx, case):
     mobj = kit.modules['f']
     vdict = dict(mobj.parameters['fr'].valuedict)
     lo, hi = min(vdict.values()), max(vdict.values())
+    # the values belonging to the labels: '<number><SI prefix><unit>' unless a value is given explicitly
+    want = []
+    for ent in case['labels']:
+        ent = [ent] if isinstance(ent, str) else list(ent)
+        label = next(e for e in ent if isinstance(e, str))
+        explicit = [e for e in ent[ent.index(label) + 1:] if isinstance(e, (int, float))]
+        if explicit:
+            want.append(float(explicit[0]))
+        else:
+            body = label[:len(label) - len(case['unit'])] if case['unit'] else label
+            num = body.rstrip(''.join(k for k in SI_EXP if k))
+            want.append(float(f'{num}e{SI_EXP[body[len(num):]]}'))
+    if sorted(want) != sorted(vdict.values()) and not all(abs(a - b) <= 1e-12 * abs(b) for a, b in zip(sorted(want), sorted(vdict.values()))):
+        ctx.finding('floatenum:label-value-wrong', case, f'labels {case["labels"]!r} unit {case["unit"]!r}: values {sorted(vdict.values())!r}, expected {sorted(want)!r}')
+        return
+    ctx.ok('label-values')
     conn = FakeConn('c')
     kit.request(conn, ('activate', None, None))
     did_float = did_idx = False
-    for n, op in enumerate(case['ops']):
+    for n, op in enumerate(case.get('ops', [])):
         ctx.ev()
         sub = dict(case, ops=case['ops'][:n + 1])
         k = op['op']
